@@ -574,7 +574,9 @@ def main(ck):
 
     trace('c++ function')
     # ---------------------------------------------------------------- 3. the C++ function, compiled from the source
-    n_src = 2500 if quick else 52000
+    scale = float(os.environ.get('VERIF_C23_SCALE') or 1)      # < 1 only for mutation runs on an overloaded machine
+    notes['scale'] = scale
+    n_src = int((2500 if quick else 52000) * scale)
     cases, cpp, exe = [], None, None
     pred_meta, pred_res = [], None
     try:
@@ -585,7 +587,7 @@ def main(ck):
             ck.violation('C23/bindings.cpp:extract_source_line_expanded/crash', {'kind': 'srcline-crash', 'why': err},
                          'the compiled extract_source_line_expanded aborted on the test inputs: %s' % err)
         # the property's own predicate on the IMPLEMENTATION output, positions per ANTLR's contract
-        n_pred = 3000 if quick else 30000
+        n_pred = int((3000 if quick else 30000) * scale)
         pcs = []
         alph = [b'\t', b'\r', b' ', b'a', b'b', b';', b'(', b'\n', b'\n', b'x', b'\r\n']
         alph8 = alph + [b'\xc3\xa9', b'\xe2\x82\xac', b'\xf0\x9f\x98\x80']
@@ -681,7 +683,7 @@ def main(ck):
     G = Gens(rng)
     known_examples = [(k['key'], k['example']['text']) for k in vlib.load_known()
                       if k.get('property') == 'C23' and isinstance(k.get('example'), dict) and 'text' in k['example']]
-    n_txt = 3000 if quick else 60000
+    n_txt = int((3000 if quick else 60000) * scale)
     items = [('regression', t) for _, t in known_examples]
     edge = ['', ' ', '\n', ';', 'a', 'a :=', 'a := 1', 'a := 1;', '/* c */', '// c', 'a := 1; /* c */ b := a; // d', '\ta := ;', '@', 'a := "x', "a := 'x", '/* open',
             'a := b; a := c;', 'a := 1;\r\nb := ;\r\n', '﻿a := 1;', 'a := 1;' * 300]
@@ -712,7 +714,7 @@ def main(ck):
         nest_cases = [(f, n, NEST[f](n)) for f in ('paren', 'chain', 'neg', 'not', 'if') for n in (NEST_OK, NEST_PROBE)]
         rN = pmap(pool, task_default_limit, [c[2] for c in nest_cases])
         rH = pmap(pool, task_hier_probe, [0])
-    n_fresh = 16 if quick else 96
+    n_fresh = max(4, int((16 if quick else 96) * scale))
     fresh_idx = rng.sample(range(len(texts)), min(n_fresh, len(texts)))
     with ctx.Pool(16, initializer=winit, maxtasksperchild=1) as pool:
         rF = pmap(pool, task_fresh, [texts[i] for i in fresh_idx])
